@@ -175,7 +175,17 @@ def check_raw_layout(prog, rep):
                         ok = False
                 m = raw.fields[names.index("message_id")]
                 org = m.origin if isinstance(m, IntV) else None
-                if not (org and org[0] == "from_be_bytes"):
+                # affine spelling: 256 * buf[2] + buf[3] (from_be_bytes of two bytes picked out of the slice)
+                aff_ok = False
+                if isinstance(m, IntV) and m.aff.c == 0 and len(m.aff.t) == 2:
+                    byco = {co: sy for sy, co in m.aff.t}
+                    if set(byco) == {256, 1}:
+                        ih, il = I.syminfo.get(byco[256]), I.syminfo.get(byco[1])
+                        aff_ok = bool(ih and il and ih[0] == "elem" and il[0] == "elem" and ih[1] == buf.base and il[1] == buf.base
+                                      and ih[2] == Aff.const(2) and il[2] == Aff.const(3))
+                if aff_ok:
+                    pass
+                elif not (org and org[0] == "from_be_bytes"):
                     ok = False
                 else:
                     arr = org[1]
